@@ -191,6 +191,9 @@ def stream_driver(cfg, T, make_oracle, alpha_size=3, options=False):
         h = Harness(cfg)
         letters = alphabet(h.names, cfg.get('model', 'scalar'), alpha_size)
         oracle = make_oracle(cfg, h)
+        extra = bool(options and run.choose(2, 'extra-unexplained-key', None, 1))
+        if extra:       # the observations carry a key that is not an explained feature (the model ignores it)
+            letters = [({**x, 'zz_ctx': F(900 + i)}, y) for i, (x, y) in enumerate(letters)]
         if options and run.choose(2, 'warm-start-storage', None, 1):
             # the storage is filled through the public update_storage before the first explain_one; the first
             # explain_one must still only seed (count) and not explain
